@@ -222,9 +222,14 @@ func (b *builder) add(kind string) bool {
 				return false
 			}
 		}
+		// the siafunds themselves go to W, to O, or are split (a claim can be paid to an address that
+		// neither owned nor receives the siafunds)
 		toW := f.SiafundOutput.Value / 2
-		if rng.Chance(1, 4) {
+		switch rng.Intn(4) {
+		case 0:
 			toW = f.SiafundOutput.Value
+		case 1:
+			toW = 0
 		}
 		var sfo []types.SiafundOutput
 		if toW > 0 {
@@ -275,18 +280,26 @@ func (b *builder) add(kind string) bool {
 		if !ok {
 			return false
 		}
-		payout := sc(uint32(50 + rng.Intn(100)))
-		fc := types.FileContract{WindowStart: b.child() + uint64(1+rng.Intn(3)), Payout: payout, UnlockHash: from.addr}
-		fc.WindowEnd = fc.WindowStart + uint64(1+rng.Intn(3))
-		net := payout.Sub(cs.FileContractTax(fc))
-		vx, vy := b.split(net)
-		fc.ValidProofOutputs = outs(W, O, vx, vy)
-		burn := net.Div64(10)
-		mx, my := b.split(net.Sub(burn))
-		fc.MissedProofOutputs = append(outs(W, O, mx, my), types.SiacoinOutput{Address: types.VoidAddress, Value: burn})
-		txn := types.Transaction{SiacoinInputs: []types.SiacoinInput{{ParentID: c.ID, UnlockConditions: from.uc}},
-			SiacoinOutputs: []types.SiacoinOutput{{Address: from.addr, Value: c.SiacoinOutput.Value.Sub(payout).Sub(fee)}},
-			FileContracts:  []types.FileContract{fc}, MinerFees: []types.Currency{fee}}
+		// one to three contracts with the same proof window (their missed payouts are created by one
+		// block, in the order of the store's expiration list)
+		nfc := []int{1, 1, 2, 3}[rng.Intn(4)]
+		ws := b.child() + uint64(1+rng.Intn(3))
+		we := ws + uint64(1+rng.Intn(3))
+		txn := types.Transaction{SiacoinInputs: []types.SiacoinInput{{ParentID: c.ID, UnlockConditions: from.uc}}, MinerFees: []types.Currency{fee}}
+		var total types.Currency
+		for i := 0; i < nfc; i++ {
+			payout := sc(uint32(20 + rng.Intn(40)))
+			fc := types.FileContract{WindowStart: ws, WindowEnd: we, Payout: payout, UnlockHash: from.addr, RevisionNumber: uint64(i)}
+			net := payout.Sub(cs.FileContractTax(fc))
+			vx, vy := b.split(net)
+			fc.ValidProofOutputs = outs(W, O, vx, vy)
+			burn := net.Div64(10)
+			mx, my := b.split(net.Sub(burn))
+			fc.MissedProofOutputs = append(outs(W, O, mx, my), types.SiacoinOutput{Address: types.VoidAddress, Value: burn})
+			txn.FileContracts = append(txn.FileContracts, fc)
+			total = total.Add(payout)
+		}
+		txn.SiacoinOutputs = []types.SiacoinOutput{{Address: from.addr, Value: c.SiacoinOutput.Value.Sub(total).Sub(fee)}}
 		signV1(cs, &txn, from)
 		b.v1 = append(b.v1, txn)
 	case "v1proof": // a storage proof for an empty file: the valid outputs are paid
